@@ -6,6 +6,8 @@ ALL = ["C%02d" % i for i in range(1, 21)]
 BASE_OFF = "cd /repo && env -u ASCMHL_VERIF /venv/bin/python -m pytest -ra -q -p no:cacheprovider --timeout=900 --continue-on-collection-errors"
 T = "in-process CliRunner on tmpfs as accelerator, every alarm re-run in one fresh subprocess per command; CPython, hashlib, xxhash, lxml/libxml2 trusted; bounds and alphabets as listed in the evidence file"
 CHECKS = {
+ "C14": ("E1", "model_checking", "command matrix x state matrix plus whole BFS explorations on the real code, full metadata snapshot + audit-event oracle",
+         "Every command form is run on every kind of state (no history, flat, nested, tampered, missing/altered/new file) with cwd and TMPDIR pointing at snapshotted empty directories, and the same oracle runs as an invariant over every transition of the C06 and C08 explorations: read-only commands change nothing and issue no write-type operation, flatten changes only its destination, create changes only new manifests / chain files / new ascmhl folders of in-scope histories.", "4 C14"),
  "C11": ("E1", "model_checking", "explicit-state BFS over the option matrix of create/flatten on the real code, XSD validation of every written file as invariant",
          "From four base trees every command sequence up to the bound over the create option matrix (format sets incl. repeated, -n, -dr, -i, -ii, creator options, -sf into nested histories, nested creates), edits that lead to exit 10/11 and flatten (first/repeated) is executed; each file written by each transition is validated against the XSD shipped in the repository.", "4 C11"),
  "C09": ("E1", "model_checking", "bounded-exhaustive exploration: sealed base states x all single/pair mutations -> verify -dh on the real code",
